@@ -1088,11 +1088,21 @@ class eigenbasis_of(basis_context_manager):
             # operators registered with the context above this one
             ops_above = self.manager.basis_registered[nb]
 
+        # an object that cannot be transformed back (e.g. one created inside
+        # the context which holds no data yet) must not leave the other
+        # objects and the bookkeeping in the basis we are leaving; its
+        # exception is raised when everything else is back
+        failed = None
+
         for op in operators:
             # the operator might have been set to protected mode
             # inside the context
             if not op.is_basis_protected:
-                op.transform(S1,inv=SS) 
+                try:
+                    op.transform(S1,inv=SS) 
+                except Exception as exc:
+                    if failed is None:
+                        failed = exc
             op.set_current_basis(nb)
             
             # operators which appeared in this context and where not
@@ -1112,6 +1122,9 @@ class eigenbasis_of(basis_context_manager):
         
         if self.manager.warn_about_basis_change:
             print("\nQr >>> ... cleaning done")        
+
+        if failed is not None:
+            raise failed
             
 
 def set_current_units(units=None):
